@@ -283,6 +283,18 @@ class C15:
                 return
             dn = [getattr(d, "name", "?") for d in decos]
             outs.append((got, dn))
+            # the same command line resolved again on the same table: resolving must not wear the table out
+            decos2 = []
+            try:
+                with harness.alarm(10):
+                    r2 = al.get(list(cmd), decorators=decos2)
+                got2 = self._canon(list(r2) if r2 is not None else None, t, objs)
+            except Exception as e:
+                got2 = f"EXC {type(e).__name__}: {e}"[:200]
+            rec.count("repeated_resolutions")
+            if (got2, [getattr(d, "name", "?") for d in decos2]) != (got, dn) and not isinstance(got, str):
+                rec.violation("REPEATED-RESOLUTION/second-resolution-of-the-same-line-differs", case, {"first": [got, dn], "second": [got2, [getattr(d, "name", "?") for d in decos2]], "order": order})
+                return
         g0, d0 = outs[0]
         if any(o != outs[0] for o in outs):
             rec.violation("ORDER-DEPENDENT/definition-order-changes-result", case, {"results": outs})
